@@ -131,6 +131,10 @@ def blocked_one(args):
         import amqpstorm.channel as achan
         sleep = achan.time.sleep
         conn = amqpstorm.Connection('localhost', 'guest', 'guest', heartbeat=0, timeout=60)
+        if sc.get('tls'):
+            # the connection reads through the TLS branch of IO._read_from_socket (sock.read under the read lock); the
+            # virtual socket's read() has recv()'s stream semantics, an orderly shutdown reads as an empty result
+            conn._io.use_ssl = True
         broker = ctx.net.brokers[0]
         sock = sched.sockets[-1]
         chans = {}
@@ -608,6 +612,8 @@ def check(rep):
         if kind == 'epipe-write' and not any(b in ('idle-call',) for b in bl):
             bl.append('idle-call')
         sc = {'blockers': bl, 'kind': kind, 'fault_ms': rng.choice([0, 3, 10, 17, 25, 40]), 'idle_ms': rng.choice([5, 30, 60, 120])}
+        if kind in ('eof', 'reset') and rng.random() < 0.5:
+            sc['tls'] = True
         if rng.random() < 0.15:
             sc['broker_close_first'] = True
         elif kind in ('poll-error', 'epipe-write') and rng.random() < 0.6:
